@@ -140,4 +140,58 @@ theorem skipValue_at_value (L : Layout) (r : Rd) (hdoc : r.doc = L.doc) (i : Nat
     congr 2
     rw [hdoc, hl]; omega
 
+/-! ### the token reader in front of a run of complete values (array elements) -/
+
+/-- reader positioned in front of the tokens `v`, with `rest` behind them -/
+structure At (r : Rd) (pre v rest : List Tok) : Prop where
+  doc : r.doc = pre ++ v ++ rest
+  pos : r.pos = pre.length
+
+theorem rest_of_at {r : Rd} {pre v rest : List Tok} (h : At r pre v rest) : r.rest = v ++ rest := by
+  unfold Rd.rest; rw [h.doc, h.pos, List.append_assoc, List.drop_left]
+
+/-- `SkipValue()` in front of one complete value passes over exactly that value -/
+theorem skip_at {r : Rd} {pre v rest : List Tok} (h : At r pre v rest) (hv : WFv v) :
+    r.skipValue = .ok { r with pos := (pre ++ v).length } := by
+  unfold Rd.skipValue
+  rw [rest_of_at h]
+  obtain ⟨hne, hs⟩ := hv
+  cases hvv : v with
+  | nil => exact absurd hvv hne
+  | cons t ts =>
+    have := hs rest 0
+    rw [hvv] at this
+    simp only [List.cons_append] at this ⊢
+    rw [this]; simp only [skipN]
+    congr 2
+    rw [h.doc, hvv]; simp; omega
+
+/-- in front of `v ++ w`: in front of `v`, with `w` counted to what follows -/
+theorem At.split {r : Rd} {pre v w rest : List Tok} (h : At r pre (v ++ w) rest) : At r pre v (w ++ rest) :=
+  ⟨by rw [h.doc]; simp [List.append_assoc], h.pos⟩
+
+/-- having passed over `v`, the reader is in front of `w` -/
+theorem At.advance {r : Rd} {pre v w rest : List Tok} (h : At r pre (v ++ w) rest) :
+    At { r with pos := (pre ++ v).length } (pre ++ v) w rest :=
+  ⟨by show r.doc = _; rw [h.doc]; simp [List.append_assoc], rfl⟩
+
+/-- **the array scope's destructor loop**: in front of `items.length` complete values it passes over exactly
+    those values, whatever they are (scalars, nested arrays, nested objects) and whatever follows -/
+theorem arrCloseLoop_at (items : List (List Tok)) (hw : ∀ v ∈ items, WFv v) :
+    ∀ (r : Rd) (pre rest : List Tok), At r pre items.flatten rest →
+      arrCloseLoop items.length r = .ok { r with pos := (pre ++ items.flatten).length } := by
+  induction items with
+  | nil =>
+    intro r pre rest h
+    simp only [List.flatten_nil, List.append_nil, List.length_nil, arrCloseLoop]
+    rw [← h.pos]
+  | cons v vs ih =>
+    intro r pre rest h
+    simp only [List.flatten_cons] at h
+    have hsk := skip_at h.split (hw v (by simp))
+    simp only [List.length_cons, arrCloseLoop, hsk, bind, Except.bind]
+    have := ih (fun w hw' => hw w (by simp [hw'])) _ (pre ++ v) rest h.advance
+    rw [this]
+    simp [List.append_assoc]
+
 end BSVerif.Scope
